@@ -310,6 +310,50 @@ pub fn check_row_activities(
     }
 }
 
+/// For a run-away point (see `runaway`): a row or declared bound that the point violates
+/// by more than 1e-5 *relative to that row's own terms*. A run-away iterate is "feasible at
+/// its own magnitude" (the interior-point method's norm-relative residual test, and rooc's
+/// own post-check, which is relative to each row's terms); a row whose terms are all small
+/// and which is nevertheless missed is not explained by the magnitude of the point and is
+/// judged as the ordinary violation it is.
+fn unexcused_violation(m: &GenModel, sol: &Sol) -> Option<String> {
+    const EXCUSE: f64 = 1e-5;
+    let mut x = Vec::with_capacity(m.n());
+    for v in &m.vars {
+        x.push(sol.assignment.iter().find(|(n, _)| *n == v.name)?.1);
+    }
+    for (v, xi) in m.vars.iter().zip(&x) {
+        let (lo, hi) = v.dom.bounds_f64();
+        if !xi.is_finite() {
+            continue;
+        }
+        if *xi < lo - EXCUSE * lo.abs().max(1.0) || *xi > hi + EXCUSE * hi.abs().max(1.0) {
+            return Some(format!("{} = {xi} outside [{lo}, {hi}]", v.name));
+        }
+    }
+    for (ri, r) in m.rows.iter().enumerate() {
+        let act = m.row_activity(ri, &x);
+        let scale = r
+            .coefs
+            .iter()
+            .zip(&x)
+            .map(|(c, v)| (c * v).abs())
+            .fold(r.rhs.abs().max(1.0), f64::max);
+        let viol = match r.cmp {
+            Cmp::Le => act - r.rhs,
+            Cmp::Ge => r.rhs - act,
+            Cmp::Eq => (act - r.rhs).abs(),
+        };
+        if viol.is_finite() && scale.is_finite() && viol > EXCUSE * scale {
+            return Some(format!(
+                "row {ri} `{}`: activity {act} vs {:?} {} (violation {viol:e}, largest term {scale:e})",
+                r.name, r.cmp, r.rhs
+            ));
+        }
+    }
+    None
+}
+
 fn runaway(m: &GenModel, sol: &Sol) -> bool {
     // (the objective's constant may legitimately be large: look at the optimised part)
     (sol.value - m.offset).abs() > 1e6 * m.value_scale().max(1.0)
@@ -332,7 +376,15 @@ pub fn judge_c04(m: &GenModel, reference: &RefModel, res: &RunResult) -> Vec<Fin
     if let Outcome::Sol(sol) = &res.outcome {
         if runaway(m, sol) {
             // an iterate of magnitude 1e6+ on data with |coefficients| <= 15 is not a
-            // candidate solution at all; one class instead of a row-by-row post-mortem
+            // candidate solution at all; one class instead of a row-by-row post-mortem —
+            // unless it misses a row by more than its own magnitude explains
+            if let Some(what) = unexcused_violation(m, sol) {
+                out.push(f(
+                    "row-violated",
+                    format!("{what}; the point has coordinates of magnitude 1e6 and more elsewhere, which does not explain it"),
+                ));
+                return out;
+            }
             out.push(f(
                 "runaway-solution",
                 format!(
@@ -390,7 +442,7 @@ pub fn judge_c05(m: &GenModel, truth: Verdict, cfg: &RunCfg, res: &RunResult) ->
                 // magnitude 1e6 and more is an interior-point iterate that ran away, a
                 // different failure from a plausible-looking wrong answer
                 Verdict::Infeasible => out.push(f(
-                    if runaway(m, sol) {
+                    if runaway(m, sol) && unexcused_violation(m, sol).is_none() {
                         "solution-for-infeasible:huge"
                     } else {
                         "solution-for-infeasible"
